@@ -20,7 +20,9 @@ Huge == 16                      \* positions far beyond size() whose low 8, 16, 
 At(q, i) == IF i < Len(q) THEN q[i + 1] ELSE Refused                 \* i is zero-based
 
 \* everything the interface answers about a sequence holding q
-Obs(q) == [size |-> Len(q),
+Obs(q) == [first |-> (IF Len(q) = 0 THEN Refused ELSE q[Len(q)]),       \* the newest element, asked for before anything else
+           atrev |-> [i \in 1..(Len(q) + Extra) |-> At(q, Len(q) + Extra - i)],  \* positions size+2 down to 0, in that order
+           size |-> Len(q),
            empty |-> (Len(q) = 0),
            at |-> [i \in 1..(Len(q) + Extra) |-> At(q, i - 1)],       \* positions 0 .. size+2
            atmax |-> Refused,                                         \* position SIZE_MAX
